@@ -194,7 +194,7 @@ Proof.
 Qed.
 
 Fixpoint ordered_c (f : cframe) : bool :=
-  match f with CF _ _ _ _ _ _ _ _ calls jps _ => jps_ordered jps && forallb ordered_c calls && forallb ordered_a jps end
+  match f with CF _ _ _ _ _ _ _ _ calls jps _ _ => jps_ordered jps && forallb ordered_c calls && forallb ordered_a jps end
 with ordered_a (a : aframe) : bool :=
   match a with AF _ _ _ _ _ _ _ _ _ calls _ _ => forallb ordered_c calls end.
 
@@ -284,7 +284,7 @@ Section Flat.
 
   (** every frame of the nested result is emitted exactly once *)
   Fixpoint size_c (f : cframe) : nat :=
-    match f with CF _ _ _ _ _ _ _ _ calls jps _ => S (list_sum (map size_c calls) + list_sum (map size_a jps)) end
+    match f with CF _ _ _ _ _ _ _ _ calls jps _ _ => S (list_sum (map size_c calls) + list_sum (map size_a jps)) end
   with size_a (a : aframe) : nat :=
     match a with AF _ _ _ _ _ _ _ _ _ calls _ _ => S (list_sum (map size_c calls)) end.
 
